@@ -51,11 +51,11 @@ def finishOk (s : S) : Item → S
   | .recI pid msg => waitRel s pid msg
   | .compI pid msg => { s with stored := s.stored ++ [(2, pid, msg)] }
 
-/-- completion handlers of a failed write (try_again): a QoS 1 operation gives up (the broker will send the PUBLISH again); the PUBREC and
-the PUBCOMP stage keep the message and wait for the PUBREL (again) — the acknowledgement may have reached the broker -/
+/-- completion handlers of a failed write (try_again): QoS 1 and the PUBREC stage give up (`if (ec) return;` — the broker will send the
+PUBLISH again, unless the acknowledgement did reach it: known findings F24 / F25), the PUBCOMP stage waits for the PUBREL again -/
 def finishFail (s : S) : Item → S
   | .ackI _ _ => s
-  | .recI pid msg => waitRel s pid msg
+  | .recI _ _ => s
   | .compI pid msg => waitRel s pid msg
 
 def drain (f : S → Item → S) (s : S) : List Item → S
@@ -77,8 +77,7 @@ def stepPk (s : S) : Out → Option S
 
 /-- `resend()`: every queued request completes with try_again -/
 def requeue (s : S) : S :=
-  drain (fun s it => finishFail s it) { s with ackQ := [], recQ := [], compQ := [] }
-    ((s.recQ.map fun x => Item.recI x.1 x.2) ++ (s.compQ.map fun x => Item.compI x.1 x.2))
+  drain (fun s it => finishFail s it) { s with ackQ := [], recQ := [], compQ := [] } (s.compQ.map fun x => Item.compI x.1 x.2)
 
 def step (s : S) : Ev → Option S
   | .connUp sp =>
